@@ -691,7 +691,7 @@ def _model_values(st: _State):
     return vals
 
 
-def explore(fn, *, prefix=None, cut_depth=None, budget_s=None, max_violation_keys=8, stop_on=None, sample_every=1):
+def explore(fn, *, prefix=None, cut_depth=None, budget_s=None, max_violation_keys=500, stop_on=None, sample_every=1):
     """Depth-first exhaustion of fn's decision tree.
 
     prefix: list of forced decision nodes (from a previous cut run) — explores only that subtree.
@@ -805,8 +805,10 @@ def _par_worker(args):
     prefix, budget_s, stop_keys = args
     stop_on = None
     if stop_keys is not None:
-        sk = set(stop_keys)
-        stop_on = lambda rec: rec["key"] not in sk  # noqa
+        import fnmatch
+
+        sk = list(stop_keys)
+        stop_on = lambda rec: not any(fnmatch.fnmatchcase(rec["key"], k) for k in sk)  # noqa
     r = explore(_PAR_FN, prefix=prefix, budget_s=budget_s, stop_on=stop_on)
     r.prefixes = None
     return r
